@@ -52,10 +52,31 @@ var _ net.Error = (*TempError)(nil)
 // ErrTemp is the instance returned by ErrOf(CodeTemp).
 var ErrTemp error = &TempError{}
 
-// ErrOf returns the error of an enumeration code: kafka.Error(code) below
-// 1000, the transport errors 1001..1007 above.
-func ErrOf(code int) error {
-	switch code {
+// Enc encodes a Kafka error code (any int16) for the output: c when c >= 0,
+// 65536 + c when c < 0 (-1 -> ffff, -32768 -> 8000). The transport errors keep
+// 1001..1099, so Kafka codes in that range are never generated.
+func Enc(c int) int {
+	if c < 0 {
+		return 65536 + c
+	}
+	return c
+}
+
+// Dec is the inverse of Enc for Kafka codes.
+func Dec(enc int) int {
+	if enc >= 32768 {
+		return enc - 65536
+	}
+	return enc
+}
+
+// IsTransport tells whether an encoded code is in the transport-error range.
+func IsTransport(enc int) bool { return enc >= 1001 && enc <= 1099 }
+
+// ErrOf returns the error of an encoded code: the transport errors for
+// 1001..1099, kafka.Error(Dec(enc)) otherwise.
+func ErrOf(enc int) error {
+	switch enc {
 	case CodeUnexpectedEOF:
 		return io.ErrUnexpectedEOF
 	case CodeConnReset:
@@ -71,20 +92,20 @@ func ErrOf(code int) error {
 	case CodeTemp:
 		return ErrTemp
 	}
-	if code < 1000 {
-		return kafka.Error(code)
+	if IsTransport(enc) {
+		return fmt.Errorf("fakert: unknown code %d", enc)
 	}
-	return fmt.Errorf("fakert: unknown code %d", code)
+	return kafka.Error(Dec(enc))
 }
 
-// Classify maps an error (possibly wrapped with %w) back to its code.
+// Classify maps an error (possibly wrapped with %w) back to its encoded code.
 func Classify(err error) int {
 	if err == nil {
 		return 0
 	}
 	var ke kafka.Error
 	if errors.As(err, &ke) {
-		return int(ke)
+		return Enc(int(ke))
 	}
 	var te *TempError
 	switch {
@@ -176,7 +197,7 @@ func (k Kind) String() string {
 // Reaction is one entry of a partition's fault script.
 type Reaction struct {
 	Kind  Kind
-	Code  int           // enumeration code (see ErrOf); unused for AppliedAcked
+	Code  int           // encoded code (see Enc, ErrOf); unused for AppliedAcked
 	Delay time.Duration // sleep before reacting
 }
 
@@ -193,7 +214,7 @@ type Attempt struct {
 	Partition int
 	IDs       []uint64
 	Applied   bool
-	Seen      int // code shown to the client, 0 = acknowledged
+	Seen      int // encoded code shown to the client, 0 = acknowledged
 }
 
 // Fake is the fake cluster.
@@ -251,7 +272,8 @@ func (f *Fake) SetHonorCtx(on bool) {
 }
 
 // SetMetaFault makes the n-th metadata request overall (1-based) fail with
-// code: a topic ErrorCode in the response for code < 1000, else the Go error.
+// the encoded code: a topic ErrorCode in the response for a Kafka code, else the
+// Go error of the transport code.
 func (f *Fake) SetMetaFault(n, code int) {
 	f.mu.Lock()
 	defer f.mu.Unlock()
@@ -327,7 +349,7 @@ func (f *Fake) metadata(ctx context.Context, r *metadata.Request) (kafka.Respons
 	fail := f.metaAt != 0 && f.metaCount == f.metaAt
 	if fail {
 		f.metaFired = true
-		if f.metaCode >= 1000 {
+		if IsTransport(f.metaCode) {
 			return nil, ErrOf(f.metaCode)
 		}
 	}
@@ -348,7 +370,7 @@ func (f *Fake) metadata(ctx context.Context, r *metadata.Request) (kafka.Respons
 		t := metadata.ResponseTopic{Name: name}
 		switch {
 		case fail:
-			t.ErrorCode = int16(f.metaCode)
+			t.ErrorCode = int16(Dec(f.metaCode))
 		case !ok:
 			t.ErrorCode = int16(kafka.UnknownTopicOrPartition)
 		default:
@@ -436,13 +458,14 @@ func (f *Fake) produce(ctx context.Context, r *produce.Request) (kafka.Response,
 	applied := react.Kind == AppliedAcked || react.Kind == AppliedLost
 	if n, ok := f.topics[topic]; !ok || tp.Partition < 0 || tp.Partition >= n {
 		// unknown topic or partition: a broker would reject it
-		react = Reaction{Kind: RejectedCode, Code: int(kafka.UnknownTopicOrPartition)}
+		react = Reaction{Kind: RejectedCode, Code: Enc(int(kafka.UnknownTopicOrPartition))}
 		applied = false
 	}
 	if applied {
 		f.logs[tp] = append(f.logs[tp], ids...)
 	}
-	seen := 0
+	seen := 0        // encoded
+	wire := int16(0) // partition ErrorCode of the response
 	var goErr error
 	switch react.Kind {
 	case AppliedLost, NotApplied:
@@ -450,6 +473,7 @@ func (f *Fake) produce(ctx context.Context, r *produce.Request) (kafka.Response,
 		seen = react.Code
 	case RejectedCode:
 		seen = react.Code
+		wire = int16(Dec(react.Code))
 	}
 	att := Attempt{Topic: topic, Partition: tp.Partition, IDs: ids, Applied: applied, Seen: seen}
 	tnum, ok := f.topicNum[topic]
@@ -468,7 +492,7 @@ func (f *Fake) produce(ctx context.Context, r *produce.Request) (kafka.Response,
 			Topic: topic,
 			Partitions: []produce.ResponsePartition{{
 				Partition:  part.Partition,
-				ErrorCode:  int16(seen),
+				ErrorCode:  wire,
 				BaseOffset: base,
 			}},
 		}},
